@@ -163,12 +163,52 @@ class _Subst(ast.NodeTransformer):
         return node
 
 
-def alpha_normal(fn: ast.FunctionDef) -> str:
-    """Source of the body (docstring dropped) with parameters renamed p0, p1, … and assigned locals v0, v1, … in order
-    of first occurrence from the first compound statement on; a leading run of mutually independent simple assignments
-    is listed sorted (their order cannot matter)."""
+def _rw(st: ast.stmt) -> tuple[set[str], set[str]] | None:
+    """(names read, names written) of a simple statement — an assignment / augmented assignment to a plain name whose
+    right-hand side calls nothing; None for anything else"""
+    if isinstance(st, ast.Assign) and len(st.targets) == 1 and isinstance(st.targets[0], ast.Name):
+        w, val, extra = {st.targets[0].id}, st.value, set()
+    elif isinstance(st, ast.AugAssign) and isinstance(st.target, ast.Name):
+        w, val, extra = {st.target.id}, st.value, {st.target.id}
+    else:
+        return None
+    if any(isinstance(n, (ast.Call, ast.NamedExpr, ast.Await, ast.Yield)) for n in ast.walk(val)):
+        return None
+    return ({n.id for n in ast.walk(val) if isinstance(n, ast.Name)} | extra), w
+
+
+def _sort_independent_runs(block: list[ast.stmt]) -> list[ast.stmt]:
+    """every maximal run of consecutive simple statements that are pairwise independent (none writes what another reads
+    or writes) is put in a canonical order: their order cannot matter"""
+    out: list[ast.stmt] = []
+    run: list[ast.stmt] = []
+
+    def flush():
+        rws = [_rw(x) for x in run]
+        ok = all(not (rws[a][1] & (rws[b][0] | rws[b][1])) for a in range(len(run)) for b in range(len(run)) if a != b)
+        out.extend(sorted(run, key=ast.unparse) if ok else run)
+        run.clear()
+    for st in block:
+        if _rw(st) is not None:
+            run.append(st)
+            continue
+        flush()
+        for fld in ("body", "orelse", "finalbody"):
+            if isinstance(getattr(st, fld, None), list) and getattr(st, fld) and isinstance(getattr(st, fld)[0], ast.stmt):
+                setattr(st, fld, _sort_independent_runs(getattr(st, fld)))
+        out.append(st)
+    flush()
+    return out
+
+
+def alpha_normal(fn: ast.FunctionDef, roles: dict[str, str] | None = None) -> str:
+    """Source of the body (docstring dropped) in a canonical form: parameters renamed p0, p1, …; the locals named in
+    `roles` (found by what they are USED for, not by their position) renamed to their role; the remaining locals v0, v1,
+    … in order of first occurrence; runs of mutually independent simple statements sorted."""
     params = [a.arg for a in fn.args.posonlyargs + fn.args.args + fn.args.kwonlyargs]
     names: dict[str, str] = {p: f"p{i}" for i, p in enumerate(params)}
+    names.update(roles or {})
+    fixed = len(names)
     bound = set(params)
     for n in ast.walk(fn):
         if isinstance(n, ast.Name) and isinstance(n.ctx, ast.Store):
@@ -177,23 +217,26 @@ def alpha_normal(fn: ast.FunctionDef) -> str:
     class R(ast.NodeTransformer):
         def visit_Name(self, node):  # noqa: N802
             if node.id in bound:
-                names.setdefault(node.id, f"v{len(names) - len(params)}")
+                names.setdefault(node.id, f"v{len(names) - fixed}")
                 return ast.copy_location(ast.Name(id=names[node.id], ctx=node.ctx), node)
             return node
-    body = [x for x in fn.body if not (isinstance(x, ast.Expr) and isinstance(x.value, ast.Constant))]
-    k = 0
-    while k < len(body) and isinstance(body[k], ast.Assign) and len(body[k].targets) == 1 \
-            and isinstance(body[k].targets[0], ast.Name):
-        k += 1
-    lead, rest = body[:k], body[k:]
-    targets = {x.targets[0].id for x in lead}
-    independent = len(targets) == len(lead) and all(
-        not ({n.id for n in ast.walk(x.value) if isinstance(n, ast.Name)} & targets) for x in lead)
-    rest_src = [ast.unparse(R().visit(copy.deepcopy(x))) for x in rest]
-    lead_src = [ast.unparse(R().visit(copy.deepcopy(x))) for x in lead]
-    if independent:
-        lead_src = sorted(lead_src)
-    return "\n".join(lead_src + rest_src)
+    body = [R().visit(copy.deepcopy(x)) for x in fn.body
+            if not (isinstance(x, ast.Expr) and isinstance(x.value, ast.Constant))]
+    return "\n".join(ast.unparse(x) for x in _sort_independent_runs(body))
+
+
+def find_boundary_roles(fn: ast.FunctionDef) -> dict[str, str]:
+    """the two locals of `_find_boundary` by role: the one passed to `fn(…)` in the loop test, and the one compared with
+    MAX_ITER"""
+    roles: dict[str, str] = {}
+    for n in ast.walk(fn):
+        if isinstance(n, ast.While) and isinstance(n.test, ast.Compare) and isinstance(n.test.left, ast.Call) \
+                and len(n.test.left.args) == 1 and isinstance(n.test.left.args[0], ast.Name):
+            roles.setdefault(n.test.left.args[0].id, "bound")
+        if isinstance(n, ast.Compare) and isinstance(n.left, ast.Name) and len(n.comparators) == 1 \
+                and isinstance(n.comparators[0], ast.Name) and n.comparators[0].id == "MAX_ITER":
+            roles.setdefault(n.left.id, "iter")
+    return roles
 
 
 def decision_tree(fn: ast.FunctionDef):
@@ -245,6 +288,7 @@ def decision_tree(fn: ast.FunctionDef):
 
 class Tr:
     MODS: dict[str, ast.Module] = {}      # module ASTs of the current generation run (helper inlining)
+    SPLICE_SIMPLE = False                 # splice `x = helper(…)` also for helpers without branches (safety rendering)
 
     def __init__(self, key: str, sig: dict, fn: ast.FunctionDef):
         self.key, self.sig, self.fn = key, sig, fn
@@ -581,7 +625,7 @@ class Tr:
         body = [x for x in target.body if not (isinstance(x, ast.Expr) and isinstance(x.value, ast.Constant))]
         if not body or not isinstance(body[-1], ast.Return) or body[-1].value is None:
             return None
-        if all(isinstance(x, ast.Assign) for x in body[:-1]):
+        if all(isinstance(x, ast.Assign) for x in body[:-1]) and not self.SPLICE_SIMPLE:
             return None     # simple helper: inlined as an expression by inline_helper
         if sum(1 for x in body for n in ast.walk(x) if isinstance(n, ast.Return)) != 1:
             return None
@@ -625,6 +669,8 @@ class Tr:
         if not all(isinstance(x, ast.Assign) and len(x.targets) == 1 and isinstance(x.targets[0], ast.Name)
                    for x in body[:-1]):
             return None
+        if self.SPLICE_SIMPLE and len(body) > 1:
+            return None     # monadic rendering: no `let` inside an expression; such helpers are spliced as statements
         a = target.args
         params = [p.arg for p in a.posonlyargs + a.args]
         if recv is not None:
@@ -1463,7 +1509,8 @@ def generate_solve(src: Path) -> str:
               "        raise RuntimeError('Cannot find parameter boundaries. Maximum number of iterations is reached.')\n"
               "return b")
     exp_fn = ast.parse("def _find_boundary(fn, init, mult=2):\n" + "\n".join("    " + ln for ln in exp_fb.split("\n"))).body[0]
-    if alpha_normal(fb) != alpha_normal(exp_fn) or [a.arg for a in fb.args.args] != ["fn", "init", "mult"]:
+    if alpha_normal(fb, find_boundary_roles(fb)) != alpha_normal(exp_fn, find_boundary_roles(exp_fn)) \
+            or [a.arg for a in fb.args.args] != ["fn", "init", "mult"]:
         # compared modulo renaming of locals and reordering-free: the loop, its bound and the raise must be the same
         raise Unsupported("_find_boundary body changed")
     mult = fb.args.defaults[-1]
@@ -1507,6 +1554,7 @@ def safe_name(lean: str) -> str:
 
 
 class TrSafe(Tr):
+    SPLICE_SIMPLE = True
     """same statement walker; expressions are rendered into `Except PyErr` with tagged values"""
 
     def styp(self, t: str) -> str:
@@ -1651,6 +1699,9 @@ class TrSafe(Tr):
                 return "({ " + fields + " } : MeanResultS V)"
             if f.id == "Aggregates" and self.key == "aggr.Aggregates.__add__":
                 return self.aggregates_ctor(e)
+            inl = self.inline_helper(f.id, None, e)
+            if inl is not None:
+                return inl
             raise Unsupported(f"call {f.id}")
         if isinstance(f, ast.Attribute):
             dotted = self.dotted(f)
@@ -1737,6 +1788,7 @@ def render_add_safe(fn: ast.FunctionDef) -> str:
 
 def generate_safe(src: Path) -> str:
     mods = {m: ast.parse((src / f).read_text()) for m, f in MODULE_SOURCE.items() if m in ("aggr", "mean")}
+    Tr.MODS = {**Tr.MODS, **mods}
     parts = []
     for key in SAFE_KEYS:
         sig = SIGS[key]
